@@ -50,6 +50,7 @@ class Conn:
         self.pos = 0
         self.seen = 0          # frames already inspected
         self.upload_replies = 0
+        self.served_step = None     # the step in which the server started to serve this connection
 
 
 def _enabled(conns, rt):
@@ -121,6 +122,9 @@ def h_sched(P, S):
             rt.pending_sleeps()[who].set_result()
             trace.append("tick %d" % who)
         rt.run_until_idle()
+        for c in conns:
+            if c.ws is not None and c.ws.iterating and c.served_step is None:
+                c.served_step = step
         # inspect what the server sent in this step
         for c in conns:
             if c.ws is None:
@@ -147,11 +151,23 @@ def h_sched(P, S):
                         if acked_edb is not None and content != FE.expected_result(acked_edb, b"kw") and viol is None:
                             viol = "search-not-from-acknowledged-index"
             c.seen = len(fr)
-        # the known stale-snapshot pattern: a connection that was opened before another connection's
-        # acknowledged transition is still around (its close_service will write its old snapshot back)
+        # the known stale-snapshot pattern: while one connection gets a transition acknowledged, ANOTHER connection
+        # that was opened earlier (so its Service object holds the older state) is still open; its close_service()
+        # will write the old snapshot back.  The same holds for a connection that was constructed earlier and has
+        # not been served yet, even if its socket is already closed (its coroutine still registers and cleans up
+        # later).  A connection that WAS served and is closed does not count: in the unchanged code its pending
+        # cleanup holds the registry lock, so nobody is served - and nothing acknowledged - until it has finished.
         for (astep, aname) in ack_events:
+            if astep != step:
+                continue
             for c in conns:
-                if c.name != aname and c.opened_at is not None and c.opened_at < astep:
+                if c.name == aname or c.opened_at is None or c.opened_at >= astep:
+                    continue
+                still_open = c.closed_at is None and not c.ws.closed.done_
+                # constructed, still waiting for its turn when the acknowledgement went out (even if it gave up);
+                # being released in the very same step counts as waiting
+                never_served = c.served_step is None or c.served_step >= astep
+                if still_open or never_served:
                     known.add("stale-snapshot")
         if step > 40:
             return S.fail("schedule-did-not-terminate")
